@@ -93,11 +93,12 @@ func genCfg(rt *rapid.T) cfgP {
 		BaseMs: []int{7000, 13000, 27000, 1000}[fakecc.Uniform(rt, "base", 4)],
 		MaxMs:  []int{33000, 101000, 3000, 300000}[fakecc.Uniform(rt, "maxej", 4)],
 	}
-	switch fakecc.Weighted(rt, "alg", 45, 45, 10) {
-	case 0:
+	alg := fakecc.Weighted(rt, "alg", 40, 38, 8, 14) // fp, sr, none, both
+	if alg == 0 || alg == 3 {
 		c.FP = &fpP{Threshold: []int{50, 85, 0, 30, 99, 100}[fakecc.Weighted(rt, "thr", 40, 20, 10, 15, 10, 5)],
 			Enf: []int{100, 0}[fakecc.Weighted(rt, "enf", 85, 15)], MinHosts: fakecc.Uniform(rt, "mh", 2), ReqVol: 1 + fakecc.Uniform(rt, "rv", 8)}
-	case 1:
+	}
+	if alg == 1 || alg == 3 {
 		c.SR = &srP{Stdev: []int{1900, 1000, 500, 0, 3000}[fakecc.Weighted(rt, "stdev", 25, 30, 25, 10, 10)],
 			Enf: []int{100, 0}[fakecc.Weighted(rt, "enf", 85, 15)], MinHosts: fakecc.Uniform(rt, "mh", 5), ReqVol: 1 + fakecc.Uniform(rt, "rv", 8)}
 	}
@@ -189,6 +190,7 @@ func genPlan(rt *rapid.T) plan {
 // ---------------------------------------------------------------- model
 
 type mEndpoint struct {
+	multAlt   int // multiplier if an endpoint failing both criteria in one interval is ejected twice (A50 is silent)
 	mult      int
 	ejected   bool
 	ejectedAt time.Duration
@@ -206,6 +208,7 @@ type model struct {
 	// defect: the implementation's ejected-count is not decremented for them).
 	leak int
 	// statistics
+	extra, dblMult                                                                                           int
 	ejections, unejections, blocked, removedEjected, readded, noopUnejects, fires, uncertain, recreatedEjected int
 	setChangeWhileEjected                                                                                     bool
 }
@@ -265,7 +268,7 @@ func (m *model) applyConfig(cfg cfgP, eps []int) {
 				e.ejected = false
 				m.noopUnejects++
 			}
-			e.mult = 0
+			e.mult, e.multAlt = 0, 0
 		}
 		return
 	}
@@ -291,6 +294,7 @@ type fireResult struct {
 	unejected  map[int]bool // must be un-ejected by this firing
 	unejectAny map[int]bool // borderline elapsed time: either
 	alg        string
+	dbl        map[int]bool // fail both criteria (both enforced): the implementation may eject them twice
 }
 
 // fire advances the model over one timer firing at time t. bias is added to
@@ -300,17 +304,17 @@ func (m *model) predict(bias int) fireResult {
 	r := fireResult{candidates: map[int]bool{}, uncertain: map[int]bool{}, unejected: map[int]bool{}, unejectAny: map[int]bool{}}
 	ids := m.sortedIDs()
 	total := len(ids)
-	switch {
-	case m.cfg.SR != nil:
+	r.dbl = map[int]bool{}
+	srC, fpC := map[int]bool{}, map[int]bool{}
+	if sr := m.cfg.SR; sr != nil {
 		r.alg = "sr"
-		r.enforce = m.cfg.SR.Enf == 100
 		var cand []int
 		for _, id := range ids {
-			if e := m.eps[id]; e.s+e.f >= m.cfg.SR.ReqVol {
+			if e := m.eps[id]; e.s+e.f >= sr.ReqVol {
 				cand = append(cand, id)
 			}
 		}
-		if len(cand) >= m.cfg.SR.MinHosts && len(cand) > 0 {
+		if len(cand) >= sr.MinHosts && len(cand) > 0 {
 			var sum float64
 			for _, id := range cand {
 				e := m.eps[id]
@@ -324,42 +328,55 @@ func (m *model) predict(bias int) fireResult {
 				sq += d * d
 			}
 			stdev := math.Sqrt(sq / float64(len(cand)))
-			thr := mean - stdev*float64(m.cfg.SR.Stdev)/1000
+			thr := mean - stdev*float64(sr.Stdev)/1000
 			for _, id := range cand {
 				e := m.eps[id]
 				rate := float64(e.s) / float64(e.s+e.f)
 				switch {
+				case sr.Enf != 100:
 				case math.Abs(rate-thr) < 1e-9:
 					r.uncertain[id] = true
 				case rate < thr:
-					r.candidates[id] = true
+					srC[id] = true
 				}
 			}
 		}
-	case m.cfg.FP != nil:
-		r.alg = "fp"
-		r.enforce = m.cfg.FP.Enf == 100
+		r.enforce = r.enforce || sr.Enf == 100
+	}
+	if fp := m.cfg.FP; fp != nil {
+		r.alg += "fp"
 		var cand []int
 		for _, id := range ids {
-			if e := m.eps[id]; e.s+e.f >= m.cfg.FP.ReqVol {
+			if e := m.eps[id]; e.s+e.f >= fp.ReqVol {
 				cand = append(cand, id)
 			}
 		}
-		if len(cand) >= m.cfg.FP.MinHosts {
+		if len(cand) >= fp.MinHosts {
 			for _, id := range cand {
 				e := m.eps[id]
-				lhs, rhs := e.f*100, m.cfg.FP.Threshold*(e.s+e.f) // exact: f/(s+f)*100 > threshold
+				lhs, rhs := e.f*100, fp.Threshold*(e.s+e.f) // exact: f/(s+f)*100 > threshold
 				switch {
+				case fp.Enf != 100:
 				case lhs == rhs && e.s != 0 && e.f != 0:
 					// f/(s+f)*100 is computed in floating point; for a proper
 					// fraction that is exactly at the threshold the rounding may
 					// go either way (0 and 100 percent are exact).
 					r.uncertain[id] = true
 				case lhs > rhs:
-					r.candidates[id] = true
+					fpC[id] = true
 				}
 			}
 		}
+		r.enforce = r.enforce || fp.Enf == 100
+	}
+	for id := range srC {
+		r.candidates[id] = true
+		if fpC[id] {
+			r.dbl[id] = true
+		}
+	}
+	for id := range fpC {
+		r.candidates[id] = true
 	}
 	// capacity under "no ejection while ejected share >= max_ejection_percent"
 	ej := m.numEjected() + bias
@@ -516,12 +533,22 @@ func runInBubble(p plan) (res vk.Result) {
 
 	m := &model{eps: map[int]*mEndpoint{}, timerStart: -1}
 	curEps := append([]int(nil), p.InitEps...)
-	sigHits := 0
-	bias := func() int {
+	// Known-shape bookkeeping (the search continues past a recognised shape by
+	// mirroring it in the bias of the max_ejection_percent check):
+	//   leak: endpoints removed while ejected still counted (fixed in /repo b795dab)
+	//   dbl:  an endpoint failing both criteria in one interval is counted twice
+	sigHits, dblHits := 0, 0
+	leakBias := func() int {
 		if sigHits > 0 {
-			return m.leak // continue past the known shape by mirroring it
+			return m.leak
 		}
 		return 0
+	}
+	bias := func() int {
+		if dblHits > 0 {
+			return leakBias() + m.extra
+		}
+		return leakBias()
 	}
 
 	update := func(cfg cfgP, eps []int) string {
@@ -614,11 +641,37 @@ func runInBubble(p plan) (res vk.Result) {
 				return ""
 			}
 			if why := explain(pred); why != "" {
+				dblNow := 0
+				for id := range pred.dbl {
+					if !before[id] {
+						dblNow++
+					}
+				}
+				nU := 0
+				for id := range pred.candidates {
+					if !before[id] {
+						nU++
+					}
+				}
+				subset := true
+				for _, id := range newly {
+					subset = subset && (pred.candidates[id] || pred.uncertain[id])
+				}
+				switch {
+				// double counting: endpoints that fail both criteria are ejected twice, so
+				// the count seen by later max_ejection_percent checks (in this firing, in
+				// an order-dependent way, and in all later firings) is too high by one per
+				// such event. The observation must lie in the range this explains.
+				case pred.enforce && subset && m.extra+dblNow > 0 &&
+					len(newly) <= m.predict(leakBias()).capacity &&
+					len(newly) >= min(nU, m.predict(leakBias()+m.extra+dblNow).capacity):
+					dblHits++
+					pred = m.predict(bias())
 				// anticipated defect: does "ejected count + leaked removals" explain it exactly?
-				if m.leak > 0 && sigHits == 0 && explain(m.predict(m.leak)) == "" {
+				case m.leak > 0 && sigHits == 0 && explain(m.predict(m.leak+bias())) == "":
 					sigHits++
-					pred = m.predict(m.leak)
-				} else {
+					pred = m.predict(bias())
+				default:
 					return fmt.Sprintf("%s: timer firing at %v: %s", desc, fireAt, why)
 				}
 			}
@@ -638,14 +691,22 @@ func runInBubble(p plan) (res vk.Result) {
 				e := m.eps[id]
 				e.ejected, e.ejectedAt = true, fireAt
 				e.mult++
+				e.multAlt++
+				if pred.dbl[id] {
+					e.multAlt++
+					m.extra++
+				}
 				m.ejections++
 			}
 			// --- multiplier decrease / un-ejection
 			for _, id := range m.sortedIDs() {
 				e := m.eps[id]
 				if !e.ejected {
-					if e.mult > 0 && !contains(newly, id) {
+					if e.mult > 0 {
 						e.mult--
+					}
+					if e.multAlt > 0 {
+						e.multAlt--
 					}
 					if obs[id] {
 						return fmt.Sprintf("%s: timer firing at %v: endpoint %d appears ejected to the child but is not ejected in the model", desc, fireAt, id)
@@ -655,10 +716,22 @@ func runInBubble(p plan) (res vk.Result) {
 				if contains(newly, id) {
 					continue
 				}
-				d := time.Duration(m.cfg.BaseMs) * time.Millisecond * time.Duration(e.mult)
-				d = min(d, max(time.Duration(m.cfg.BaseMs), time.Duration(m.cfg.MaxMs))*time.Millisecond)
+				ejTime := func(mult int) time.Duration {
+					d := time.Duration(m.cfg.BaseMs) * time.Millisecond * time.Duration(mult)
+					return min(d, max(time.Duration(m.cfg.BaseMs), time.Duration(m.cfg.MaxMs))*time.Millisecond)
+				}
+				d := ejTime(e.mult)
 				elapsed := fireAt - e.ejectedAt
 				switch {
+				case elapsed > d && elapsed <= ejTime(e.multAlt):
+					// the endpoint was ejected by both algorithms in one interval at
+					// some point: A50 does not say whether that raises the
+					// multiplier once or twice; accept either.
+					m.dblMult++
+					if !obs[id] {
+						e.ejected = false
+						m.unejections++
+					}
 				case elapsed == d: // boundary: either
 					if !obs[id] {
 						e.ejected = false
@@ -813,6 +886,16 @@ func runInBubble(p plan) (res vk.Result) {
 	cl(m.uncertain > 0, "numerically_borderline_interval")
 	cl(m.recreatedEjected > 0, "subconn_recreated_while_ejected")
 	cl(m.setChangeWhileEjected, "set_change_while_ejected")
+	cl(m.extra > 0, "endpoint_failed_both_criteria")
+	cl(m.dblMult > 0, "double_ejection_multiplier_ambiguity")
+	cl(m.cfg.SR != nil && m.cfg.FP != nil, "both_algorithms_configured_at_end")
+	if dblHits > 0 && sigHits == 0 {
+		r := vk.Bad("an endpoint that fails both the success-rate and the failure-percentage criterion in one interval is ejected twice and counted twice: %d such event(s); a max_ejection_percent check then blocked ejections although the ejected share of current endpoints was below the limit (%d firing(s) explained exactly by the inflated count)", m.extra, dblHits)
+		r.Sig = "c40.double_ejection_counted_twice"
+		r.Classes = append(res.Classes, "known_double_count_shape")
+		r.Steps = res.Steps
+		return r
+	}
 	if sigHits > 0 {
 		r := vk.Bad("ejected endpoint removed by a resolver update keeps counting as ejected: a later interval ejected fewer endpoints than the A50 rules require, exactly as if the %d removed endpoint(s) were still ejected for the max_ejection_percent check", m.leak)
 		r.Sig = "c40.removed_ejected_endpoint_leaks_count"
@@ -866,7 +949,7 @@ func fmtStep(s step) string {
 func TestVerifC40OutlierDetection(t *testing.T) {
 	vk.Check(t, vk.Unit[plan]{
 		ID: "C40", Name: "od",
-		Rule: "histories of 5..20 (quick) / 5..40 (thorough) steps over outlier_detection_experimental with a stub child in a bubble: intervals with per-endpoint success/failure counts (good / bad / mixed / silent profiles; no calls to ejected endpoints), config changes (success-rate xor failure-percentage or no-op; enforcement 0/100; max_ejection_percent 0..100; base/max ejection times that are not multiples of the 10 s interval), resolver updates removing/adding/re-adding endpoints out of 8, 4 s advances, re-creation of an endpoint's SubConn. non-trivial = >=1 ejection and an endpoint-set change while something is ejected",
+		Rule: "histories of 5..20 (quick) / 5..40 (thorough) steps over outlier_detection_experimental with a stub child in a bubble: intervals with per-endpoint success/failure counts (good / bad / mixed / silent profiles; no calls to ejected endpoints), config changes (success-rate and/or failure-percentage or no-op; enforcement 0/100; max_ejection_percent 0..100; base/max ejection times that are not multiples of the 10 s interval), resolver updates removing/adding/re-adding endpoints out of 8, 4 s advances, re-creation of an endpoint's SubConn. non-trivial = >=1 ejection and an endpoint-set change while something is ejected",
 		Gen:  genPlan, Run: run,
 	})
 }
